@@ -1007,6 +1007,71 @@ def check_force_collection(run, rng, reps=1):
 # end-to-end: one physical crystal in every unit system
 # --------------------------------------------------------------------------
 
+def _load_routes(run, c, u, ucell, smat, fc_native, qpts, f_plain, f_nac, scale, case):
+    """the same crystal in calculator c's units through the LOAD routes: Phonopy object -> save -> phonopy.load(yaml)
+    without / with calculator argument, and load(unitcell_filename=<native structure file>, calculator=c)"""
+    import phonopy
+    from phonopy import Phonopy
+
+    def eig(f):
+        return f * np.abs(f)
+
+    with quiet():
+        pho = Phonopy(ucell, supercell_matrix=smat, primitive_matrix="P", factor=u["factor"], calculator=c, log_level=0)
+        pho.force_constants = fc_native
+        pho.save("phonopy_params.yaml", settings={"force_constants": True})
+    routes = [("phonopy.load(yaml)", dict(phonopy_yaml="phonopy_params.yaml"), "yaml-calculator"),
+              ("phonopy.load(yaml, calculator)", dict(phonopy_yaml="phonopy_params.yaml", calculator=c), "yaml-and-argument")]
+    if c not in ("cp2k", "turbomole") and c not in U.ROTATING:  # rotating formats change the Cartesian frame of fc and Born tensors
+        try:
+            with quiet():
+                path = "unitcell_" + c
+                from phonopy.interface.calculator import write_crystal_structure
+
+                write_crystal_structure(path, ucell, interface_mode=c, optional_structure_info=U.structure_info(c, ucell, filename=path))
+                path = U.complete_file(c, path, ucell)
+            routes.append(("phonopy.load(unitcell_filename, calculator)",
+                           dict(unitcell_filename=path, calculator=c, supercell_matrix=smat, primitive_matrix="P", force_constants_filename="FORCE_CONSTANTS"),
+                           "structure-file"))
+        except (Exception, SystemExit):
+            run.count("load route via native structure file not available (%s)" % c, section="oracle")
+    for label, kw, klass in routes:
+        # phonopy.yaml carries force constants / lattice with its own printed precision, structure files with theirs:
+        # a unit mix-up changes eigenvalues by factors, these windows are relative 2e-6
+        etol = 2e-6 * scale ** 2
+        run.count("oracle-unit-invariance-load-routes", section="oracle")
+        run.case(("loadroute", c, klass, case["crystal"], case["born"]), nontrivial=(klass == "yaml-calculator"))
+        rcase = dict(case, route=label)
+        try:
+            with quiet():
+                ph = phonopy.load(is_nac=False, log_level=0, **kw)
+        except (Exception, SystemExit) as e:
+            if _site_of(e) is None:
+                raise
+            run.violation(label, "%s-%s-raises" % (c, klass), "%s for %s: %s: %s" % (label, c, type(e).__name__, e), rcase)
+            continue
+        if ph.calculator != c:
+            run.violation(label, "%s-%s-calculator-lost" % (c, klass), "%s: calculator is %r, expected %r" % (label, ph.calculator, c), rcase)
+        fac = ph.unit_conversion_factor
+        ph.run_qpoints(qpts)
+        f = ph.get_qpoints_dict()["frequencies"]
+        if abs(fac - u["factor"]) > 1e-12 * u["factor"] or np.abs(eig(f) - eig(f_plain)).max() > etol:
+            run.violation(label, "%s-%s-frequency-units" % (c, klass),
+                          "%s: the crystal saved in %s units comes back with unit_conversion_factor %.9g (default of %s: %.9g); frequencies differ from the "
+                          "eV/Angstrom description by %.3g THz" % (label, c, fac, c, u["factor"], np.abs(f - f_plain).max()), rcase)
+        if u["nac_factor"] is None:
+            continue
+        with quiet():
+            phn = phonopy.load(is_nac=True, born_filename="BORN", log_level=0, **kw)
+        nf = phn.nac_params["factor"] if phn.nac_params else None
+        phn.run_qpoints(qpts)
+        fn = phn.get_qpoints_dict()["frequencies"]
+        if nf is None or abs(nf - u["nac_factor"]) > 1e-12 * u["nac_factor"] or np.abs(eig(fn) - eig(f_nac)).max() > etol:
+            run.violation(label, "%s-%s-nac-units" % (c, klass),
+                          "%s: BORN without factor gets NAC factor %r (default of %s: %.9g); frequencies with NAC differ from the eV/Angstrom description by %.3g THz"
+                          % (label, nf, c, u["nac_factor"], np.abs(fn - f_nac).max()), rcase)
+
+
 def check_unit_invariance(run, rng, names=None):
     for k, name in enumerate(names or [rng.choice(["nacl_prim", "zincblende_prim", "cscl"])]):
         _unit_invariance_once(run, rng, name, k)
@@ -1090,6 +1155,7 @@ def _unit_invariance_once(run, rng, name, rep):
             for k in ("free_energy", "entropy", "heat_capacity"):
                 if np.abs(tp[k] - tp_ref[k]).max() > 1e-7 * max(1.0, np.abs(tp_ref[k]).max()):
                     run.violation("phonopy.load(calculator)", "%s-thermal" % c, "%s: %s differs by %.3g" % (c, k, np.abs(tp[k] - tp_ref[k]).max()), case)
+            _load_routes(run, c, u, ucell, smat, fc / fcu, qpts, f_plain, f_nac, scale, case)
             if u["nac_factor"] is None:
                 run.count("unit invariance: NAC not implemented (%s)" % c, section="oracle")
                 continue
